@@ -168,6 +168,7 @@ def run(facts, rep, tier):
     rep.rule("C19-R4", "Write errors are propagated (write_file(..)? in write_store_at_path, expect in write_graph); normalize = write_graph(load_graph()) on one library path.")
     c14.rule_r1(facts, rep, "C19-R1")
     c14.rule_r3(facts, rep, "C19-R1")
+    c14.rule_r6(facts, rep, "C19-R1b")
     rule_r2(facts, rep)
     rule_r3(facts, rep)
     rule_r4(facts, rep)
